@@ -32,6 +32,7 @@ ASSUMPTIONS = ["per-K evaluation (data_K + calculator) is deterministic, so re-e
                "bookkeeping, which must hold for any model"]
 MIN_NONTRIVIAL = {"quick": 8, "thorough": 100}
 TOL = 1e-9
+ABS_FLOOR = 1e-13   # results are in natural units (use_factor=False): quantities that vanish carry rounding noise only
 
 MESHES = [2, 3, [2, 1, 2], [1, 3, 1]]
 MODES = ["memory", "allow_restart", "dump_results"]
@@ -69,7 +70,7 @@ def compare(tag, got, ref, scale, what):
         if g.shape != np.asarray(d).shape:
             raise Violation(f"{tag}:shape", f"{what}: '{k}' {g.shape} vs {np.asarray(d).shape}")
         err = float(np.max(np.abs(g - d))) if g.size else 0.0
-        if err > TOL * scale[k] + 1e-300:
+        if err > TOL * scale[k] + ABS_FLOOR:
             raise Violation(tag, f"{what}: '{k}' differs from the from-scratch weighted sum by {err:.3e} "
                                  f"(scale {scale[k]:.3e}, rel {err / max(scale[k], 1e-300):.2e})")
 
